@@ -46,7 +46,21 @@ if [[ -f "$base.resp" ]]; then cat "$base.resp" > "$VALIDATING_RESPONSE_PATH"; f
 if [[ -f "$base.metrics" ]]; then cat "$base.metrics" > "$METRICS_PATH"; fi
 if [[ -f "$base.kpatch" ]]; then cat "$base.kpatch" > "$KUBERNETES_PATCH_PATH"; fi
 if [[ -f "$base.gate" ]]; then : > "$ctl/sync/$uid.wrote"; wait_for "$ctl/sync/$uid.go"; fi
-exit "$(cat "$base.exit" 2>/dev/null || echo 3)"
+# what it says on stdout / stderr before it ends
+if [[ -f "$base.noise" ]]; then
+  n="$(cat "$base.noise")"
+  [[ "$n" == *o* ]] && echo "c14 hook $me: a line on stdout"
+  [[ "$n" == *e* ]] && echo "c14 hook $me: a line on stderr" >&2
+fi
+# how the process ends: "<n>" = exit n; "k<n>" = a signal terminates it (it kills itself; the files above are written)
+e="$(cat "$base.exit" 2>/dev/null || echo 3)"
+if [[ "$e" == k* ]]; then
+  ulimit -c 0 2>/dev/null
+  kill -"${e#k}" $$
+  for ((i = 0; i < 100; i++)); do sleep 0.05; done
+  kill -KILL $$ # the signal asked for is ignored in this environment: still a death by signal
+fi
+exit "$e"
 `
 
 var c14HookOnce sync.Once
@@ -75,6 +89,8 @@ type c14Binding struct {
 // what the hook does for one binding name
 type c14Outcome struct {
 	Exit    int
+	Noise   string // what the process prints before it ends: "" nothing, "o" a line on stdout, "e" a line on stderr, "oe" both
+	Sig     int    // != 0: the hook process does not exit: after writing its files it is terminated by this signal (Exit is not used)
 	Kind    string // e g t y b z s o n u a d
 	Msg     string
 	Warns   []string
@@ -106,9 +122,12 @@ var c14Sides = []string{"ok.mv", "bad.ms", "bad.mo", "bad.po", "bad.pg"}
 
 // write the files that tell the hook script what to do (base = ctl/<hook>.<index> or ctl/uid.<uid>)
 func (o c14Outcome) writeCtl(base string, gate bool) {
-	_ = os.WriteFile(base+".exit", []byte(strconv.Itoa(o.Exit)), 0o644)
+	_ = os.WriteFile(base+".exit", []byte(o.ending()), 0o644)
 	if o.Kind != "e" {
 		_ = os.WriteFile(base+".resp", []byte(o.Content), 0o644)
+	}
+	if o.Noise != "" {
+		_ = os.WriteFile(base+".noise", []byte(o.Noise), 0o644)
 	}
 	m, k := o.sideFiles()
 	if m != "" {
@@ -121,6 +140,28 @@ func (o c14Outcome) writeCtl(base string, gate bool) {
 		_ = os.WriteFile(base+".gate", nil, 0o644)
 	}
 }
+
+// ending: how the hook process ends — "<n>" it exits with status n, "k<n>" signal n terminates it
+func (o c14Outcome) ending() string {
+	if o.Sig != 0 {
+		return "k" + strconv.Itoa(o.Sig)
+	}
+	return strconv.Itoa(o.Exit)
+}
+
+// endingToken: the ending in the protocol line, with what the process printed before (`!o`, `!e`, `!oe`)
+func (o c14Outcome) endingToken() string {
+	if o.Noise != "" {
+		return o.ending() + "!" + o.Noise
+	}
+	return o.ending()
+}
+
+// the statuses a hook process exits with besides 0 (shell conventions: 126 not executable, 127 not found,
+// 128+n "killed by signal n" as reported by a wrapper, 255 exit -1) and the signals that terminate it
+// (KILL, TERM, SEGV, ABRT, USR1, ALRM: none of them is ignored in a child of a Go program)
+var c14ExitCodes = []int{1, 2, 3, 64, 126, 127, 128, 130, 137, 139, 143, 254, 255}
+var c14Signals = []int{9, 15, 11, 6, 10, 14}
 
 func (o c14Outcome) token() string {
 	file := ""
@@ -151,9 +192,9 @@ func (o c14Outcome) token() string {
 		file = strings.Join(parts, ";")
 	}
 	if o.Side != "" {
-		return fmt.Sprintf("%d+%s:%s", o.Exit, o.Side, file)
+		return fmt.Sprintf("%s+%s:%s", o.endingToken(), o.Side, file)
 	}
-	return fmt.Sprintf("%d:%s", o.Exit, file)
+	return fmt.Sprintf("%s:%s", o.endingToken(), file)
 }
 
 func (o c14Outcome) allowed() bool { return o.Kind == "a" || o.Kind == "u" }
@@ -170,8 +211,16 @@ func c14GenOutcomeSide(rng *Rng, tag string) c14Outcome {
 
 func c14GenOutcome(rng *Rng, tag string) c14Outcome {
 	o := c14Outcome{}
-	if rng.Chance(18) {
-		o.Exit = PickOne(rng, []int{1, 2, 127})
+	if rng.Chance(25) {
+		// the process does not exit zero: an exit status 1..255, or a signal terminates it
+		if rng.Chance(55) {
+			o.Exit = PickOne(rng, c14ExitCodes)
+		} else {
+			o.Sig = PickOne(rng, c14Signals)
+		}
+	}
+	if rng.Chance(30) {
+		o.Noise = PickOne(rng, []string{"o", "e", "e", "oe"})
 	}
 	k := rng.Intn(100)
 	switch {
@@ -505,6 +554,11 @@ func c14RunSteps(r *Run, c *Case, hooks []c14Hook, steps []c14Step) {
 				q.Out.writeCtl(filepath.Join(ctl, "uid."+q.UID), len(st.Sched) > 0)
 				c.Op(fmt.Sprintf("reqout %s %s", c14Enc(q.UID), q.Out.token()), "ok")
 				c.Note("outcome:file=" + q.Out.Kind)
+				if q.Out.Sig != 0 {
+					c.Note("outcome:ended-by-signal")
+				} else if q.Out.Exit != 0 {
+					c.Note("outcome:exit!=0")
+				}
 				if q.Out.Side != "" {
 					c.Note("outcome:others=" + q.Out.Side)
 				}
@@ -865,7 +919,7 @@ func c14Variant(rng *Rng, p string) string {
 }
 
 func runC14(r *Run) {
-	r.Rule = "1-3 hooks with 1-3 validating/mutating bindings each (fully qualified names for validating; arbitrary names for mutating: upper case, blanks, slashes, empty path segments, non-ASCII; names whose SafeURL forms collide within and across hooks), a scripted outcome per (hook, binding): exit code x response file (empty, not JSON, truncated, wrong types, bad base64, JSON followed by garbage, two documents, {}, null, unknown fields, allowed/denied with message/warnings/base64 JSONPatch); 3-6 requests per case: registered paths and variants (trailing/double slashes, upper case, other configuration id, prefix/suffix changes, unknown, /, /hooks), bodies valid / garbage / without request. A run may also leave metric / object patch operation files behind (a valid metric operation; a metrics file that is not JSON; a metric operation that does not validate; an unknown object patch operation; an unparsable object patch file) — all but the first make the hook task fail after a clean exit. Overlap cases: 2-4 requests in flight at the same time (mostly to the same hook and binding, also to other bindings of the same hook and to other hooks, each with its own uid and its own scripted outcome), the order of \"handed over by the hook manager (task and binding context built, hook run not begun) / run prepared (Hook.Run wrote the binding context file and the other files, process not started) / hook process started / hook writes its files / hook exits\" over all of them chosen at random and forced with a yield point in the event closure (verifsched admission.taskBuilt), a gate at the very start of the hook process (before it reads its binding context) and marker files; every hook process is checked against the request it was started for (which request uid, which hook and binding it found in its binding context), every answer against its own request. Everything runs through the real chain: chi router of the admission WebhookHandler (httptest) -> the event closure of initValidatingWebhookManager -> HookManager routing -> taskHandler -> Hook.Run -> bash -> response file -> AdmissionReview. Plus differential lines for SafeURLString and detectConfigurationAndWebhook on random strings. A case is non-trivial when a hook process ran; distinct = distinct op-line sequences."
+	r.Rule = "1-3 hooks with 1-3 validating/mutating bindings each (fully qualified names for validating; arbitrary names for mutating: upper case, blanks, slashes, empty path segments, non-ASCII; names whose SafeURL forms collide within and across hooks), a scripted outcome per (hook, binding) or per request: how the hook process ends (exit 0; an exit status 1-255 incl. 126, 127, 128+n, 255; a signal — KILL, TERM, SEGV, ABRT, USR1, ALRM — that terminates it after it wrote its files; before it ends it may print a line on stdout and / or stderr) x response file (empty, not JSON, truncated, wrong types, bad base64, JSON followed by garbage, two documents, {}, null, unknown fields, allowed/denied with message/warnings/base64 JSONPatch); 3-6 requests per case: registered paths and variants (trailing/double slashes, upper case, other configuration id, prefix/suffix changes, unknown, /, /hooks), bodies valid / garbage / without request. A run may also leave metric / object patch operation files behind (a valid metric operation; a metrics file that is not JSON; a metric operation that does not validate; an unknown object patch operation; an unparsable object patch file) — all but the first make the hook task fail after a clean exit. Overlap cases: 2-4 requests in flight at the same time (mostly to the same hook and binding, also to other bindings of the same hook and to other hooks, each with its own uid and its own scripted outcome), the order of \"handed over by the hook manager (task and binding context built, hook run not begun) / run prepared (Hook.Run wrote the binding context file and the other files, process not started) / hook process started / hook writes its files / hook exits\" over all of them chosen at random and forced with a yield point in the event closure (verifsched admission.taskBuilt), a gate at the very start of the hook process (before it reads its binding context) and marker files; every hook process is checked against the request it was started for (which request uid, which hook and binding it found in its binding context), every answer against its own request. Everything runs through the real chain: chi router of the admission WebhookHandler (httptest) -> the event closure of initValidatingWebhookManager -> HookManager routing -> taskHandler -> Hook.Run -> bash -> response file -> AdmissionReview. Plus differential lines for SafeURLString and detectConfigurationAndWebhook on random strings. A case is non-trivial when a hook process ran; distinct = distinct op-line sequences."
 	c14SharedHook(r)
 
 	// ---- corpus
@@ -974,6 +1028,65 @@ func runC14(r *Run) {
 			{Reqs: []c14Req{{m, "ok", "hd-I", allow("I")}}},
 		})
 	})
+
+	r.One(7, func(c *Case, _ *Rng) {
+		c.Desc = "corpus: the hook writes allowed=true and then does not exit zero: a signal terminates it (KILL, TERM, SEGV) or it exits 137 / 255 / 126"
+		allowEnd := func(exit, sig int) *c14Outcome {
+			return &c14Outcome{Exit: exit, Sig: sig, Kind: "a", Warns: []string{"written before the end"}, Content: `{"allowed":true,"warnings":["written before the end"]}`}
+		}
+		ok := c14Outcome{Kind: "a", Content: `{"allowed":true}`}
+		h := c14Hook{ID: 1, Bindings: []c14Binding{{"v", "gate.example.com"}, {"m", "mutGate"}}, Out: map[string]c14Outcome{"gate.example.com": ok, "mutGate": ok}}
+		g, m := "/hooks/gate-example-com", "/hooks/mut-gate"
+		noisy := func(o *c14Outcome, n string) *c14Outcome { o.Noise = n; return o }
+		c14RunCase(r, c, []c14Hook{h}, []c14Req{
+			{g, "ok", "end-0", allowEnd(0, 0)}, {g, "ok", "end-kill", allowEnd(0, 9)}, {g, "ok", "end-term", allowEnd(0, 15)}, {m, "ok", "end-segv", allowEnd(0, 11)},
+			{g, "ok", "end-137", allowEnd(137, 0)}, {m, "ok", "end-255", allowEnd(255, 0)}, {g, "ok", "end-126", allowEnd(126, 0)},
+			{g, "ok", "end-0-stderr", noisy(allowEnd(0, 0), "e")}, {g, "ok", "end-kill-stderr", noisy(allowEnd(0, 9), "oe")}, {m, "ok", "end-1-stderr", noisy(allowEnd(1, 0), "e")},
+			{g, "ok", "end-kill-empty", &c14Outcome{Sig: 9, Kind: "e"}}, {g, "ok", "end-plain", nil}})
+	})
+
+	// ---- how the hook process ends: every exit status class / terminating signal x response-file class x binding kind
+	type c14End struct{ exit, sig int }
+	var ends []c14End
+	for _, e := range c14ExitCodes {
+		ends = append(ends, c14End{e, 0})
+	}
+	for _, s := range c14Signals {
+		ends = append(ends, c14End{0, s})
+	}
+	pte := `[{"op":"replace","path":"/spec/x","value":1}]`
+	endFiles := []c14Outcome{
+		{Kind: "e"}, {Kind: "g", Content: "this is not json"}, {Kind: "t", Content: `{"allowed": true`},
+		{Kind: "a", Content: `{"allowed": true}`},
+		{Kind: "a", Warns: []string{"w 1"}, Patch: pte, Content: `{"allowed": true, "warnings": ["w 1"], "patch": "` + base64.StdEncoding.EncodeToString([]byte(pte)) + `"}`},
+		{Kind: "d", Msg: "no", Content: `{"allowed": false, "message": "no"}`},
+		{Kind: "u", Content: `{"allowed": true, "unknownField": [1, 2]}`},
+		{Kind: "a", Side: "ok.mv", Content: `{"allowed": true}`},
+	}
+	r.Cases(700, len(ends)*2, 0, func(c *Case, _ *Rng) {
+		k := c.Idx - 700
+		e := ends[k%len(ends)]
+		kind := []string{"v", "m"}[k/len(ends)]
+		name := "table.example.com"
+		h := c14Hook{ID: 1, Bindings: []c14Binding{{kind, name}}, Out: map[string]c14Outcome{name: {Kind: "a", Content: `{"allowed": true}`}}}
+		var reqs []c14Req
+		for i, f := range endFiles {
+			o := f
+			o.Exit, o.Sig = e.exit, e.sig
+			o.Noise = []string{"", "e", "oe"}[i%3] // the executor words the error of a failed run after what is on stderr
+			reqs = append(reqs, c14Req{"/hooks/table-example-com", "ok", fmt.Sprintf("e-%d-%d", c.Idx, i), &o})
+		}
+		// afterwards the same hook exits zero with the same verdict: allowed
+		reqs = append(reqs, c14Req{"/hooks/table-example-com", "ok", fmt.Sprintf("e-%d-plain", c.Idx), nil})
+		if e.sig != 0 {
+			c.Desc = fmt.Sprintf("ending table: signal %d terminates the hook process after it wrote its files, %s binding, every response-file class", e.sig, kind)
+		} else {
+			c.Desc = fmt.Sprintf("ending table: the hook process exits %d after it wrote its files, %s binding, every response-file class", e.exit, kind)
+		}
+		c14RunCase(r, c, []c14Hook{h}, reqs)
+		c.Note("case:ending-table")
+	})
+	r.Extra["exhaustive_ending_table"] = fmt.Sprintf("%d exit statuses besides 0 (%v) and %d terminating signals (%v) x %d response-file classes x {validating, mutating}", len(c14ExitCodes), c14ExitCodes, len(c14Signals), c14Signals, len(endFiles))
 
 	// ---- the complete outcome table: every response-file content class x exit code x binding kind
 	pt := `[{"op":"replace","path":"/spec/x","value":1}]`
@@ -1120,7 +1233,9 @@ func runC14(r *Run) {
 					if h.Out[b.Name].Side != "" {
 						c.Note("outcome:others=" + h.Out[b.Name].Side)
 					}
-					if h.Out[b.Name].Exit != 0 {
+					if o := h.Out[b.Name]; o.Sig != 0 {
+						c.Note("outcome:ended-by-signal")
+					} else if o.Exit != 0 {
 						c.Note("outcome:exit!=0")
 					}
 				}
